@@ -43,6 +43,7 @@ type Contract struct {
 	Mods    []*ModItem
 	Inv     map[int][]*Clause
 	Asserts map[string][]*Clause // keyed "call <callee>#k" -> clauses asserted before that call
+	SiteSets map[string][]*GhostEffect // ghost assignments performed just before a call site ("set at call f#k: g := expr")
 	After   map[string][]*Clause // ghost updates / assumptions are not allowed; only asserts (checked) after call
 	Allocates []string
 	HasAllocates bool
@@ -159,7 +160,7 @@ func (cs *ContractSet) parseContractFile(file, pkgPath string) error {
 	// join continuation lines: a line whose first token is not a keyword continues the previous one
 	keywords := map[string]bool{"func": true, "props": true, "requires": true, "ensures": true, "ensures-trusted": true, "modifies": true, "invariant": true,
 		"trusted": true, "arith": true, "inline": true, "pred": true, "ghost": true, "owner": true, "flagchan": true, "assert": true,
-		"allocates": true, "freezes": true, "invokes": true, "preserves": true, "maintains": true, "sort": true, "effect": true, "monitor": true, "locks": true, "inmonitor": true, "pure": true, "blocking": true, "note": true, "lemma": true, "params": true, "spec": true, "axiom": true}
+		"allocates": true, "freezes": true, "invokes": true, "preserves": true, "maintains": true, "sort": true, "effect": true, "set": true, "monitor": true, "locks": true, "inmonitor": true, "pure": true, "blocking": true, "note": true, "lemma": true, "params": true, "spec": true, "axiom": true}
 	var joined []item
 	for _, it := range items {
 		f := strings.Fields(it.text)
@@ -192,7 +193,7 @@ func (cs *ContractSet) parseContractFile(file, pkgPath string) error {
 					}
 				}
 			}
-			cur = &Contract{Pkg: pkgPath, Name: name, Params: params, Inv: map[int][]*Clause{}, Asserts: map[string][]*Clause{}, File: file, Line: it.line}
+			cur = &Contract{Pkg: pkgPath, Name: name, Params: params, Inv: map[int][]*Clause{}, Asserts: map[string][]*Clause{}, SiteSets: map[string][]*GhostEffect{}, File: file, Line: it.line}
 			if kw == "lemma" {
 				cur.Lemma = true
 			}
@@ -466,6 +467,22 @@ func (cs *ContractSet) parseContractFile(file, pkgPath string) error {
 				return perr(err)
 			}
 			cur.Locks = append(cur.Locks, e)
+		case "set":
+			// set at call <callee>#k: g := expr   (ghost assignment just before that call; names as in site asserts)
+			if cur == nil || !strings.HasPrefix(rest, "at ") {
+				return perr(fmt.Errorf("set at <site>: g := expr (inside func)"))
+			}
+			k0 := strings.Index(rest, ": ")
+			k := strings.Index(rest, ":=")
+			if k0 < 0 || k < k0 {
+				return perr(fmt.Errorf("set at <site>: g := expr"))
+			}
+			site := strings.TrimSpace(rest[3:k0])
+			e, err := parseCExpr(strings.TrimSpace(rest[k+2:]))
+			if err != nil {
+				return perr(err)
+			}
+			cur.SiteSets[site] = append(cur.SiteSets[site], &GhostEffect{Name: strings.TrimSpace(rest[k0+2 : k]), Expr: e, Text: rest})
 		case "effect":
 			// effect g := expr
 			k := strings.Index(rest, ":=")
